@@ -1556,12 +1556,8 @@ def c14(tier, seed):
     mc["text"] = ""
     # the filter of the implementation before repair d0e4562 (cancellation remembered per invoke id) must stay refuted:
     # the specification is only worth something if it can tell the two mechanisms apart
-    try:
-        vlib.run_tlc("Invoke", "InvokeOld.cfg", wd, timeout=600)
+    if not vlib.run_tlc("Invoke", "InvokeOld.cfg", wd, timeout=600, expect_violation="NothingAfterCancel")["refuted"]:
         raise ToolError("C14: Invoke.tla no longer refutes the per-invoke-id filter (InvokeOld.cfg)")
-    except ToolError as e:
-        if "NothingAfterCancel is violated" not in str(e):
-            raise
     rng = random.Random(seed)
     S = {"settle": 40}
     scripts = {
